@@ -88,8 +88,12 @@ def setup_worker(ctx):
 def _mk_header(nchans, nbits, nsamps, path, data_type="filterbank", dm=0.0):
     from sigpyproc.header import Header
 
+    # every third product belongs to an observation whose source name / raw-file path is longer than 80 characters
+    _mk_header.n = getattr(_mk_header, "n", 0) + 1
+    long_names = _mk_header.n % 3 == 0
     return Header(filename=path, data_type=data_type, nchans=nchans, foff=-0.5, fch1=1400.25, nbits=nbits, tsamp=6.4e-5 * 3,
-                  tstart=59000.123456789, nsamples=nsamps, dm=dm, source="J0437-4715", telescope="Parkes", backend="BPSR")
+                  tstart=59000.123456789, nsamples=nsamps, dm=dm, source="J0437-4715" + ("_drift-scan-field" * 6 if long_names else ""), telescope="Parkes", backend="BPSR",
+                  rawdatafile="/data/archive/2017/09/04/beam01/" + "uwl_" * 20 + "raw.sf" if long_names else "raw.sf")
 
 
 def _values(rng, n, depth_bits, dtype=None):
